@@ -401,6 +401,8 @@ func (c *Ctx) c16BRun(gs []*gast.Grammar, flagSets [][]string, isLR bool, rng *r
 		memo bool
 		dbg  bool
 		st   bool
+		allow bool
+		norec bool
 	}
 	var keys []key
 	var phase1 []*mon.Case
@@ -415,22 +417,34 @@ func (c *Ctx) c16BRun(gs []*gast.Grammar, flagSets [][]string, isLR bool, rng *r
 			ins = append(ins, lrInputs(u.G, rng, 6)...)
 		}
 		for i := 0; i < c.N(6, 14); i++ {
-			ins = append(ins, gast.Mutate(rng, u.G.Sentence(rng, u.G.Rules[0].Name, alpha, 5), alpha, false))
+			ins = append(ins, gast.Mutate(rng, u.G.Sentence(rng, u.G.Rules[0].Name, alpha, 5), alpha, i%3 == 2))
 		}
 		for _, in := range ins {
-			for _, o := range [][3]bool{{true, false, false}, {true, false, true}, {false, true, false}, {true, true, true}, {false, false, false}} {
-				if o == [3]bool{false, false, false} && !isLR {
+			combos := [][5]bool{{true, false, false}, {true, false, true}, {false, true, false}, {true, true, true}, {false, false, false}}
+			// "under every combination of the other runtime options": two more of the 32 subsets of
+			// {Memoize, Debug, Statistics, AllowInvalidUTF8, Recover(false)} per input, rotating so
+			// that every subset occurs many times per run
+			for x := 0; x < 2; x++ {
+				j := (len(keys)*7 + 3 + 13*x) % 32
+				combos = append(combos, [5]bool{j&1 != 0, j&2 != 0, j&4 != 0, j&8 != 0, j&16 != 0})
+			}
+			for _, o := range combos {
+				if o == [5]bool{} && !isLR {
 					continue // the plain configuration is decided against the model in part A
 				}
-				k := key{u, in, o[0], o[1], o[2]}
+				k := key{u, in, o[0], o[1], o[2], o[3], o[4]}
 				id := fmt.Sprintf("b1/%d", len(keys))
 				keys = append(keys, k)
-				phase1 = append(phase1, &mon.Case{ID: id, Pkg: u.Pkg, Input: in, Memo: k.memo, Debug: k.dbg, Stats: k.st, MaxExpr: big, MaxEvents: 2000})
+				c.CovSet("c16b_option_subsets", fmt.Sprintf("memo=%t,debug=%t,stats=%t,allowinvalid=%t,norecover=%t", o[0], o[1], o[2], o[3], o[4]))
+				phase1 = append(phase1, &mon.Case{ID: id, Pkg: u.Pkg, Input: in, Memo: k.memo, Debug: k.dbg, Stats: k.st, AllowInvalid: k.allow, NoRecover: k.norec, MaxExpr: big, MaxEvents: 2000})
 			}
 		}
 	}
 	r1 := bt.Run(phase1, batch.RunOpts{MaxDeaths: 4})
 	isBudget := func(r *mon.Result) bool {
+		if r.Panic == "error:max number of expressions parsed" {
+			return true // Recover(false): the budget is a panic and panics are let through
+		}
 		return len(r.Errs) > 0 && r.Errs[len(r.Errs)-1].Inner == "max number of expressions parsed"
 	}
 	var phase2 []*mon.Case
@@ -465,7 +479,7 @@ func (c *Ctx) c16BRun(gs []*gast.Grammar, flagSets [][]string, isLR bool, rng *r
 			}
 			id := fmt.Sprintf("b2/%d/%d", i, n)
 			exps[id] = exp{k: k, n: n, exhaust: isBudget(r) || n < r.ExprCnt, base: r}
-			phase2 = append(phase2, &mon.Case{ID: id, Pkg: k.u.Pkg, Input: k.in, Memo: k.memo, Debug: k.dbg, Stats: k.st, MaxExpr: n, MaxEvents: 2000})
+			phase2 = append(phase2, &mon.Case{ID: id, Pkg: k.u.Pkg, Input: k.in, Memo: k.memo, Debug: k.dbg, Stats: k.st, AllowInvalid: k.allow, NoRecover: k.norec, MaxExpr: n, MaxEvents: 2000})
 		}
 		if !isBudget(r) && i%4 == 0 {
 			// "practically unlimited" budgets, also when the caller's Stats struct was used before: a
@@ -473,7 +487,7 @@ func (c *Ctx) c16BRun(gs []*gast.Grammar, flagSets [][]string, isLR bool, rng *r
 			for j, n := range []uint64{math.MaxUint64, math.MaxUint64 - 1, math.MaxUint64 - 700, 1 << 63} {
 				id := fmt.Sprintf("b2/%d/huge%d", i, j)
 				exps[id] = exp{k: k, n: n, exhaust: false, base: r}
-				phase2 = append(phase2, &mon.Case{ID: id, Pkg: k.u.Pkg, Input: k.in, Memo: k.memo, Debug: k.dbg, Stats: true, StatsPre: []uint64{0, 1, 777, 5}[j], MaxExpr: n, MaxEvents: 2000})
+				phase2 = append(phase2, &mon.Case{ID: id, Pkg: k.u.Pkg, Input: k.in, Memo: k.memo, Debug: k.dbg, Stats: true, StatsPre: []uint64{0, 1, 777, 5}[j], AllowInvalid: k.allow, NoRecover: k.norec, MaxExpr: n, MaxEvents: 2000})
 			}
 		}
 	}
@@ -500,7 +514,7 @@ func (c *Ctx) c16BRun(gs []*gast.Grammar, flagSets [][]string, isLR bool, rng *r
 			}
 			continue
 		}
-		if r.Val != e.base.Val || r.ErrStr != e.base.ErrStr {
+		if r.Val != e.base.Val || r.ErrStr != e.base.ErrStr || r.Panic != e.base.Panic {
 			c.Report(&Violation{Class: "C16/memo-unexhausted-differs", Summary: fmt.Sprintf("budget %d is not exhausted (needs %d) but the result differs from the large-budget run: grammar %q input %q: %s / %q vs %s / %q",
 				e.n, e.base.ExprCnt, gast.Short(e.k.u.G), e.k.in, r.Val, r.ErrStr, e.base.Val, e.base.ErrStr), Grammar: e.k.u.Text, Input: e.k.in, Case: cs})
 		}
